@@ -232,10 +232,11 @@ func (r *RectClip64) executeInternal(path Path64) {
 	var ok bool
 	if loc, ok = getLocation(r.rect, path[highI]); !ok {
 		i := highI - 1
-		prev, ok = getLocation(r.rect, path[i])
-		for i >= 0 && !ok {
+		for i >= 0 {
+			if prev, ok = getLocation(r.rect, path[i]); ok {
+				break
+			}
 			i--
-			prev, ok = getLocation(r.rect, path[i])
 		}
 		if i < 0 {
 			for _, pt := range path {
@@ -384,10 +385,13 @@ func (r *RectClip64) executeInternalPath64(path Path64) {
 	var loc Location
 	var ok bool
 	if loc, ok = getLocation(r.rect, path[0]); !ok {
-		prev, ok2 := getLocation(r.rect, path[i])
-		for i <= highI && !ok2 {
+		prev := Inside
+		for i <= highI {
+			var ok2 bool
+			if prev, ok2 = getLocation(r.rect, path[i]); ok2 {
+				break
+			}
 			i++
-			prev, ok2 = getLocation(r.rect, path[i])
 		}
 		if i > highI {
 			for _, pt := range path {
